@@ -1243,7 +1243,7 @@ Qed.
 Lemma step_inv st o st' ot : inv st -> In (st', ot) (step Repaired st o) -> inv st'.
 Proof.
   intros Hinv. unfold step, skip.
-  destruct o as [sid vrf s4 s6 spd o4 o6 od|sid a|sid|isreq bind rq sid vrf s4 o4|isreq sid vrf s6 spd o6 od|sid|sid| |sid|sid];
+  destruct o as [sid vrf s4 s6 spd o4 o6 od|sid a|sid|isreq bind rq sid vrf s4 o4|isreq sid vrf s6 spd o6 od|sid|sid| |sid|sid|sid|sid vrf s4 o4 s6 spd o6 od];
     try (apply step_restart_inv; exact Hinv);
     destruct (find_sess sid st) as [s|] eqn:Ef;
     try (intros [E|[]]; inversion E; subst; exact Hinv);
@@ -1268,6 +1268,19 @@ Proof.
     apply step_rel6_inv; auto.
   - destruct (negb (s_ppp s) && s_live s); [apply step_rel_inv; auto|intros [E|[]]; inversion E; subst; exact Hinv].
   - destruct (negb (s_ppp s)); intros [E|[]]; inversion E; subst; exact Hinv.
+  - destruct (negb (s_ppp s)); [|intros [E|[]]; inversion E; subst; exact Hinv].
+    intros [E|[]]; inversion E; subst.
+    apply inv_update with (s := s); auto.
+    + apply step_ok_refl.
+    + intros _. destruct Hinv as (_ & _ & Hs & _). eapply Forall_forall in Hs; [|exact Hin]. exact Hs.
+    + destruct Hinv as (_ & _ & _ & Ht). eapply Forall_forall in Ht; [|exact Hin]. exact Ht.
+  - destruct (negb (s_ppp s) && s_live s && negb (s_started s)); [|intros [E|[]]; inversion E; subst; exact Hinv].
+    intros [E|[]]; inversion E; subst.
+    apply inv_update with (s := s); auto.
+    + apply step_ok_refl.
+    + intros _ _. unfold ic_ctx; cbn [s_ppp s_told s_b6 s_bd s_vrf s_id oitem].
+      split; [intros X; discriminate|]. repeat split; apply oo_none.
+    + unfold told_ok, ic_ctx; cbn [s_ppp]. intros X; discriminate.
 Qed.
 
 Lemma reach_inv st0 st : inv st0 -> reach Repaired st0 st -> inv st.
@@ -1549,7 +1562,7 @@ Proof.
   assert (Hfind : forall sid s, find_sess sid st = Some s -> rec_ok s).
   { intros sid s Hf. unfold find_sess in Hf. apply find_in in Hf. destruct Hf as [Hf _].
     eapply Forall_forall in Hss; eauto. }
-  destruct o as [sid vrf s4 s6 spd o4 o6 od|sid a|sid|isreq bind rq sid vrf s4 o4|isreq sid vrf s6 spd o6 od|sid|sid| |sid|sid].
+  destruct o as [sid vrf s4 s6 spd o4 o6 od|sid a|sid|isreq bind rq sid vrf s4 o4|isreq sid vrf s6 spd o6 od|sid|sid| |sid|sid|sid|sid vrf s4 o4 s6 spd o6 od].
   8:{ unfold step_restart.
       destruct (fold_left (restore_one Repaired (store (st_prov st))) (st_sess st)
                   (mkReg (map reset_pool (pools (st_reg st))) [], [])) as [r2 ss] eqn:E.
@@ -1619,6 +1632,10 @@ Proof.
     split; [exact Hss|]. unfold prov_age. cbn [st_prov].
     destruct (assoc (s_mac s) (by_mac (st_prov st))); [|exact Hst].
     destruct (lassoc n (objs (st_prov st))); exact Hst.
+  - destruct (negb (s_ppp s)); intros [E|[]]; inversion E; subst; try exact Hinv.
+    apply rec_put; [exact Hinv| |exact Hst]. exact Hs.
+  - destruct (negb (s_ppp s) && s_live s && negb (s_started s)); intros [E|[]]; inversion E; subst; try exact Hinv.
+    apply rec_put; [exact Hinv| |exact Hst]. intros _. left. reflexivity.
 Qed.
 
 Lemma reach_rec st0 st : rec_inv st0 -> reach Repaired st0 st -> rec_inv st.
